@@ -34,7 +34,7 @@ def BOUNDS(tier):
 
 def REQUIRED_COVER(tier):
     return {'fill:1023/4', 'op:store_slice_consumed', 'op:snake', 'fits-exactly', 'overflow-by-one', 'range:257', 'range:0', 'depth:1023', 'read:route:plain', 'read:route:vm',
-            'read:exact', 'bfs'}
+            'read:exact', 'bfs', 'ref-limit'}
 
 
 LEAF = RC.RCell('1')
@@ -456,7 +456,62 @@ def shard_ranges(rec):
 
 
 # ------------------------------------------------------------------ depth limit
+def case_ref_limit(rec):
+    """sixth session: no route yields a cell with more than 4 references - the builder's public refs attribute assigned a longer list,
+    the plain constructor, a bag whose descriptor claims 5..7 references"""
+    from pytoniq_core.boc import Builder, Cell
+    from pytoniq_core.boc.tvm_bitarray import TvmBitarray
+    from ..ref import boc as RB
+    rec.case('ref-limit')
+    leaf = to_lib(LEAF)
+    for n in (5, 6, 7, 8):
+        routes = []
+
+        def via_setter(n=n):
+            b = Builder().store_bits('101')
+            b.refs = [leaf] * n
+            return b.end_cell()
+
+        def via_setter_slice(n=n):
+            b = Builder().store_bits('101')
+            b.refs = [leaf] * n
+            return b.to_slice().to_cell()
+
+        def via_ctor(n=n):
+            ba = TvmBitarray(1023)
+            ba.extend('101')
+            return Cell(ba, [leaf] * n, -1)
+
+        def via_iadd(n=n):
+            b = Builder()
+            for _ in range(4):
+                b.store_ref(leaf)
+            b.refs += [leaf] * (n - 4)
+            return b.end_cell()
+        routes = [('refs-setter', via_setter), ('refs-setter+to_slice', via_setter_slice), ('constructor', via_ctor), ('refs+=', via_iadd)]
+        if n <= 7:
+            def via_boc(n=n):
+                # a two-cell bag written by hand: cell 0 has descriptor d1 = n and n one-byte reference indexes, all pointing at cell 1
+                cells = bytes([n, 2, 0xa0]) + bytes([1] * n) + bytes([0, 2, 0xc0])
+                data = bytes.fromhex('b5ee9c72') + bytes([1, 1, 2, 1, 0, len(cells), 0]) + cells
+                return Cell.one_from_boc(data)
+            routes.append(('boc-descriptor', via_boc))
+        for name, thunk in routes:
+            rec.trans()
+            rec.trace()
+            try:
+                c = thunk()
+            except Exception:
+                rec.outcome('refused-ok')
+                continue
+            if len(c.refs) > 4:
+                rec.violation(f'cell-limits:{name}', f'{name}: a cell with {len(c.refs)} references was produced', 'case_ref_limit', {})
+                rec.outcome('OVERFLOW')
+    rec.covered('ref-limit')
+
+
 def shard_depth(rec):
+    case_ref_limit(rec)
     from pytoniq_core.boc import Builder
     rec.case('depth')
     leaf = to_lib(LEAF)
